@@ -642,7 +642,8 @@ class TopLevelVisitor(ast.NodeVisitor):
 
                 # The startline should also begin with the same triple quote
                 # Account for raw strings. Note f-strings cannot be docstrings
-                if startline.strip().startswith((trip, 'r' + trip)):
+                # (docstring literals may carry an r/R/u/U prefix)
+                if startline.strip().lower().startswith((trip, 'r' + trip, 'u' + trip)):
                     # Both conditions pass.
                     start = cand_start_
                     break
